@@ -1,0 +1,82 @@
+//go:build verif
+
+package keylock
+
+// Contracts for govc, property C02: the generic lockers (TKeyLocker[T], TKeyLockerGrp[T]).
+// Comments only; compiled only with the build tag `verif`.
+
+//@ arith int
+//@ index elt
+//@ property C02
+//@ assumption keylock generic lockers: an Unlock/RUnlock/Unlocks/RUnlocks caller still holds the registrations it made (stated with atlock); registration counters stay below 2^62
+//
+//@ guarded TKeyLocker.lockMap by TKeyLocker.locker
+//@ monitor TKeyLocker.locker
+//@   havoc mapsof(self.lockMap), wrapLocker.readCount, wrapLocker.writeCount, region($alloc)
+//@   invariant #entries self.lockMap != nil && forall k T :: { has(self.lockMap, k) } has(self.lockMap, k) ==> self.lockMap[k] != nil && allocated(self.lockMap[k]) && self.lockMap[k].readCount >= 0 && self.lockMap[k].writeCount >= 0 && self.lockMap[k].readCount + self.lockMap[k].writeCount > 0
+//@   invariant #distinct forall k1 T, k2 T :: { has(self.lockMap, k1), has(self.lockMap, k2) } has(self.lockMap, k1) && has(self.lockMap, k2) && k1 != k2 ==> self.lockMap[k1] != self.lockMap[k2]
+//@   assume forall x *wrapLocker :: { x.readCount } x.readCount < 4611686018427387904 && x.writeCount < 4611686018427387904
+//
+// registration counts of a key (0 when the key has no entry)
+//@ pure wcnt(d *TKeyLocker, k T) int = ite(has(d.lockMap, k), d.lockMap[k].writeCount, 0)
+//@ pure rcnt(d *TKeyLocker, k T) int = ite(has(d.lockMap, k), d.lockMap[k].readCount, 0)
+//@ pure othersSame(d *TKeyLocker, key T) bool = forall k T :: { has(d.lockMap, k) } k != key ==> has(d.lockMap, k) == old(has(d.lockMap, k)) && d.lockMap[k] == old(d.lockMap[k]) && wcnt(d, k) == old(wcnt(d, k)) && rcnt(d, k) == old(rcnt(d, k))
+//
+//@ func TKeyLocker.tryFree
+//@   requires wheld(d.locker) && d.lockMap != nil && wrLocker != nil
+//@   ensures #freed wrLocker.readCount == 0 && wrLocker.writeCount == 0 ==> !has(d.lockMap, key)
+//@   ensures #kept !(wrLocker.readCount == 0 && wrLocker.writeCount == 0) ==> has(d.lockMap, key) == old(has(d.lockMap, key)) && d.lockMap[key] == old(d.lockMap[key])
+//@   ensures #others forall k T :: { has(d.lockMap, k) } k != key ==> has(d.lockMap, k) == old(has(d.lockMap, k)) && d.lockMap[k] == old(d.lockMap[k])
+//@   modifies entries(d.lockMap)
+//
+// single-key operations: the registration is made (removed) inside the table's critical section; the per-key
+// RWMutex is taken after the table mutex is released, so waiting for one key never blocks another key's operations
+//@ func TKeyLocker.Lock
+//@   requires d != nil && !held(d.locker)
+//@   atunlock #registered1 wcnt(d, key) == old(wcnt(d, key)) + 1
+//@   atunlock #registered2 rcnt(d, key) == old(rcnt(d, key))
+//@   atunlock #registered3 othersSame(d, key)
+//@   opt keeps-lock
+//@   modifies mapsof(d.lockMap), wrapLocker.readCount, wrapLocker.writeCount, region($alloc)
+//@ func TKeyLocker.RLock
+//@   requires d != nil && !held(d.locker)
+//@   atunlock #registered1 rcnt(d, key) == old(rcnt(d, key)) + 1
+//@   atunlock #registered2 wcnt(d, key) == old(wcnt(d, key))
+//@   atunlock #registered3 othersSame(d, key)
+//@   opt keeps-lock
+//@   modifies mapsof(d.lockMap), wrapLocker.readCount, wrapLocker.writeCount, region($alloc)
+//@ func TKeyLocker.Unlock
+//@   requires d != nil && !held(d.locker)
+//@   atlock #mine has(d.lockMap, key) && d.lockMap[key].writeCount >= 1
+//@   atunlock #unregistered1 wcnt(d, key) == old(wcnt(d, key)) - 1
+//@   atunlock #unregistered2 rcnt(d, key) == old(rcnt(d, key))
+//@   atunlock #unregistered3 othersSame(d, key)
+//@   opt keeps-lock
+//@   modifies mapsof(d.lockMap), wrapLocker.readCount, wrapLocker.writeCount
+//@ func TKeyLocker.RUnlock
+//@   requires d != nil && !held(d.locker)
+//@   atlock #mine has(d.lockMap, key) && d.lockMap[key].readCount >= 1
+//@   atunlock #unregistered1 rcnt(d, key) == old(rcnt(d, key)) - 1
+//@   atunlock #unregistered2 wcnt(d, key) == old(wcnt(d, key))
+//@   atunlock #unregistered3 othersSame(d, key)
+//@   opt keeps-lock
+//@   modifies mapsof(d.lockMap), wrapLocker.readCount, wrapLocker.writeCount
+//
+// ---- sharded group: multi-key calls visit the shards in strictly ascending shard order ----
+//@ ghost grpShards int
+//@ opaque sortperm(i int) int
+//@ func funcval w.calKeyFn
+//@   trusted the field holds ReMap.SimpleIndex or ReMap.XHashIndex (range [0, shards) proved under C17); a function of the key alone
+//@   ensures 0 <= result && result < grpShards
+//@   modifies
+//@ func TKeyLockerGrp.calculateSortedMultiKeys
+//@   requires w != nil && grpShards == len(w.ls)
+//@   ensures #sorted forall i int, j int :: { result[i], result[j] } 0 <= i && i < j && j < len(result) ==> result[i].index < result[j].index
+//@   ensures #inrange forall i int :: { result[i] } 0 <= i && i < len(result) ==> 0 <= result[i].index && result[i].index < len(w.ls)
+//@   modifies region($alloc)
+//@   loop 1
+//@     invariant m != nil && nalloc() >= old(nalloc()) && forall k int :: { has(m, k) } has(m, k) ==> 0 <= k && k < grpShards
+//@   loop 2
+//@     invariant m != nil && (forall k int :: { has(m, k) } has(m, k) ==> 0 <= k && k < grpShards) && len(ms) >= 0 && isfresh(ms) && nalloc() >= old(nalloc())
+//@     invariant #visited forall a int :: { ms[a] } 0 <= a && a < len(ms) ==> visited(2, ms[a].index) && 0 <= ms[a].index && ms[a].index < grpShards
+//@     invariant #distinct forall a int, b int :: { ms[a], ms[b] } 0 <= a && a < b && b < len(ms) ==> ms[a].index != ms[b].index
